@@ -372,10 +372,8 @@ func (np *NetworkPolicy) GetEgressAllowedConns(dst Peer) (*common.ConnectionSet,
 		if err != nil {
 			return res, err
 		}
-		res.Union(ruleConns)
-		if res.AllowAll {
-			return res, nil
-		}
+		res.Union(ruleConns) // the remaining rules are examined even if all connections are allowed already: an error of
+		// any rule is returned whatever the order of the rules
 	}
 	return res, nil
 }
@@ -398,10 +396,8 @@ func (np *NetworkPolicy) GetIngressAllowedConns(src, dst Peer) (*common.Connecti
 		if err != nil {
 			return res, err
 		}
-		res.Union(ruleConns)
-		if res.AllowAll {
-			return res, nil
-		}
+		res.Union(ruleConns) // the remaining rules are examined even if all connections are allowed already: an error of
+		// any rule is returned whatever the order of the rules
 	}
 	return res, nil
 }
